@@ -204,12 +204,23 @@ def run(chk, model_ok=True):
         akt, pkt = rng.choice(["password", "master", "localized"]), rng.choice(["password", "master", "localized"])
         peer = sessions.rand_v3_peer(rng, auth=auth, priv=priv)
         if k % 2 == 0 or k == 0:
+            raw = False
             pair_pw = (rand_pw(rng, rng.choice([1, 8, 13, 64, 100])), rand_pw(rng, rng.choice([1, 8, 13, 64, 100])))
+            if rng.random() < 0.35:
+                # one secret for both keys (the key types may still differ: password / master / localized are
+                # different derivations of the same octets; of the digest's own size, so that user.py's alignment
+                # of master / localized keys leaves the octets alone)
+                one = rand_pw(rng, 16 if auth == 1 else 20)
+                pair_pw = (one, one)
+                if akt == pkt and rng.random() < 0.8:
+                    pkt = rng.choice([t for t in ("password", "master", "localized") if t != akt])
+                raw = True
         else:
             auth = 3 - prev_auth          # the same secrets as the previous session, the other digest
+            raw = False
         prev_auth = auth
         peer = e2e.Peer("v3", auth=auth, priv=priv, engine_id=peer.state.engine_id, user=peer.state.user.decode(),
-                        auth_pw=pair_pw[0], priv_pw=pair_pw[1], auth_kt=akt, priv_kt=pkt)
+                        auth_pw=pair_pw[0], priv_pw=pair_pw[1], auth_kt=akt, priv_kt=pkt, raw_secrets=raw)
         stt = peer.state
         KT = {"password": KeyType.Password, "master": KeyType.Master, "localized": KeyType.Localized}
         ak = (Md5Key if auth == 1 else Sha1Key)(stt.auth_secret, key_type=KT[akt])
@@ -239,6 +250,15 @@ def run(chk, model_ok=True):
                 why = c11.check_payload(stt, rec, dg, [rec["arg"]])
             if why:
                 fail(f"{s.label} ({akt}/{pkt} keys): {why}", s.line())
+    # the real clients, engine id learnt from the agent (whose Report may name another contextEngineID): the keys in
+    # force after discovery are the user's secrets localized to the *authoritative* engine id
+    from props import c13
+    n_cli = 0
+    for key, script, r, why in c13.client_cases(rng, 24 if quick else 480):
+        n_cli += 1
+        if why and any(w in why for w in ("HMAC", "not readable", "keys were not installed", "not encrypted", "engine id")):
+            fail(f"{key}: {why}", f"# client {key}")
+    n_sess += n_cli
     # the key classes of user.py against their model (padding, codes, refusal of priv without auth)
     ulines, uwant = [], []
     for k in range(300 if quick else 6000):
